@@ -43,6 +43,13 @@ pub fn run_case(case: &J) -> J {
         m.functions.push(("site".into(), site));
         m.imports = conf["imports"].as_array().unwrap().iter().map(|i| segs(i).join(".")).collect();
     }
+    // imports of the module that encloses the call site's module (they must not reach into it)
+    if let Some(pi) = conf.get("pimps").and_then(|x| x.as_array()) {
+        if !ns.is_empty() {
+            let parent = module_at(&mut root, &ns[..ns.len() - 1]);
+            parent.imports = pi.iter().map(|i| segs(i).join(".")).collect();
+        }
+    }
     let mut site_path = ns.clone();
     site_path.push("site".into());
     let mut main_name = "main";
